@@ -2,7 +2,7 @@
 import collections
 import time
 
-from .. import f1, gen, runner, wasm, pools, interp
+from .. import f1, gen, runner, wasm, pools, interp, e2e
 from ..wasm import I32, I64, F32, F64, Module, Func
 
 ID = 'C07'
@@ -43,7 +43,12 @@ def make_consts(ch, params):
     m.memory = (1, None)
     m.table = (64, None)
     m.exports.append((b'mem', 'memory', 0))
-    script = [('inst', 0)]
+    # sometimes with imported globals in front: constant initialisers then belong to globals whose index is not their position
+    # among the defined ones
+    nimp = ch.pick((0, 0, 1, 2))
+    for k in range(nimp):
+        m.imports.append((b'env', b'ig%d' % k, 'global', (ch.pick((I32, I64, F32, F64)), False)))
+    script = []
     keys = []
     e = 0
     nglob = 0
@@ -58,7 +63,7 @@ def make_consts(ch, params):
             it = I32 if t == F32 else I64
             m.funcs.append(Func(m.type_index((), (it,)), [], [('%s.const' % t, v), ('%s.reinterpret_%s' % (it, t),)]))
         else:
-            g = len(m.globals)
+            g = nimp + len(m.globals)
             m.globals.append((t, bool(ch.below(2)), ('%s.const' % t, v)))
             nglob += 1
             if pos == 2 or t in (I32, I64):
@@ -82,6 +87,7 @@ def make_consts(ch, params):
         off = ch.pick((0, 1, 7, 31, 32, 62, 63))
         m.elems.append((('i32.const', off), [ch.below(len(m.funcs))]))
         keys.append((I32, off))
+    script = e2e.default_setup(m, 1) + script
     script.append(('mem', 0))
     for off in sorted(set(o[1] for md, o, d in m.datas)):
         lo = max(off - 2, 0)
